@@ -126,17 +126,24 @@ Inductive c02_case :=
          (o_noresp : bool)          (* the call failed without a response *)
          (o_code : Z) (o_status : bytes) (o_header : hmap) (o_cl : Z) (o_trailer : hmap)
          (o : obs_api)
+         (o_interims : list (Z * hmap))   (* httptrace.Got1xxResponse calls, in order *)
 (* HTTP/2: the HEADERS frames before the data (status, fields, END_STREAM), the DATA frames as
    (offset, length) slices of the body with padding length and END_STREAM, the trailer fields *)
 | H2Case (is_head : bool) (body : bspec) (heads : list (bytes * list mfield * bool))
          (frames : list (N * N * N * bool)) (trailers : option (list mfield))
          (has_body : bool) (m : mode) (pat : list N)
          (o_noresp : bool) (o_code : Z) (o_header : hmap) (o_cl : Z) (o_trailer : hmap) (o : obs_api)
+         (o_interims : list (Z * hmap))
 (* HTTP/3: HEADERS frames, DATA frames as slices of the body, trailer fields *)
 | H3Case (is_head : bool) (body : bspec) (heads : list (bytes * list mfield))
          (parts : list (N * N)) (trailers : option (list mfield))
          (has_body : bool) (m : mode) (pat : list N)
          (o_noresp : bool) (o_code : Z) (o_header : hmap) (o_cl : Z) (o_trailer : hmap) (o : obs_api)
+         (o_interims : list (Z * hmap))
+(* one client saving the bodies of a sequence of exchanges to files (SetOutputDirectory +
+   SetOutputFile): the files present before, the steps (file name as given, status, body), the
+   content of every file after each step *)
+| FileCase (dir : bytes) (pre : store) (steps : list (bytes * Z * bytes)) (obs : list store)
 (* Response API cell (any protocol): status, the body the transport delivers, the request /
    client configuration, the caller's operations; observed: call error, output writer
    contents, download callback values, bytes handed to the unmarshaller by SetSuccessResult,
@@ -146,6 +153,13 @@ Inductive c02_case :=
           (ops : list op_spec)
           (o_err : bool) (o_out : bytes) (o_cbs : list N) (o_unm : option bytes)
           (o_outs : list op_out).
+
+Definition interims_eqb (a b : list (Z * hmap)) : bool :=
+  list_eqb (fun x y => (fst x =? fst y)%Z && hmap_eqb (snd x) (snd y)) a b.
+
+Definition store_eqb (a b : store) : bool :=
+  (length a =? length b) &&
+  forallb (fun kv => opt_eqb bytes_eqb (store_get (fst kv) b) (Some (snd kv))) a.
 
 Definition slice (body : bytes) (off len : N) : bytes :=
   firstn (N.to_nat len) (skipn (N.to_nat off) body).
@@ -161,7 +175,7 @@ Definition mux_matches (ref : bytes) (d : option mux_delivery)
 
 Definition c02_check (c : c02_case) : bool :=
   match c with
-  | H1Case meth body pieces has_body m pat o_noresp o_code o_status o_header o_cl o_trailer o =>
+  | H1Case meth body pieces has_body m pat o_noresp o_code o_status o_header o_cl o_trailer o o_interims =>
       let bd := expand_body body in
       let wire := expand_wire bd pieces in
       let ref := if has_body then bd else [] in
@@ -174,23 +188,27 @@ Definition c02_check (c : c02_case) : bool :=
           hmap_eqb (r_header (d_resp d)) o_header &&
           (r_content_length (d_resp d) =? o_cl)%Z &&
           hmap_eqb (b_trailer (d_body d)) o_trailer &&
-          api_matches ref (d_api d) o
+          api_matches ref (d_api d) o &&
+          interims_eqb (interim_heads_f (S (S max_1xx)) meth br_size wire) o_interims
       end
-  | H2Case is_head body heads frames trailers has_body m pat o_noresp o_code o_header o_cl o_trailer o =>
+  | H2Case is_head body heads frames trailers has_body m pat o_noresp o_code o_header o_cl o_trailer o o_interims =>
       let bd := expand_body body in
       let ref := if has_body then bd else [] in
       let sizes := cycle_sizes (S (S (length bd))) pat in
       let hs := map (fun x => {| hh_status := fst (fst x); hh_fields := snd (fst x); hh_end := snd x |}) heads in
       let fr := map (fun x => match x with (off, len, pad, e) =>
                                 {| fd_data := slice bd off len; fd_pad := pad; fd_end := e |} end) frames in
-      mux_matches ref (h2_exchange is_head hs fr trailers m sizes) o_noresp o_code o_header o_cl o_trailer o
-  | H3Case is_head body heads parts trailers has_body m pat o_noresp o_code o_header o_cl o_trailer o =>
+      mux_matches ref (h2_exchange is_head hs fr trailers m sizes) o_noresp o_code o_header o_cl o_trailer o &&
+      (o_noresp || interims_eqb (h2_interim_heads hs) o_interims)
+  | H3Case is_head body heads parts trailers has_body m pat o_noresp o_code o_header o_cl o_trailer o o_interims =>
       let bd := expand_body body in
       let ref := if has_body then bd else [] in
       let sizes := cycle_sizes (S (S (length bd))) pat in
       let hs := map (fun x => {| h3_status := fst x; h3_flds := snd x |}) heads in
       let ps := map (fun x => slice bd (fst x) (snd x)) parts in
-      mux_matches ref (h3_exchange is_head hs ps trailers m sizes) o_noresp o_code o_header o_cl o_trailer o
+      mux_matches ref (h3_exchange is_head hs ps trailers m sizes) o_noresp o_code o_header o_cl o_trailer o &&
+      (o_noresp || interims_eqb (h3_interim_heads hs) o_interims)
+  | FileCase dir pre steps obs => list_eqb store_eqb (download_all pre dir steps) obs
   | ApiCase code body has_body disable save cap cb result tf ops o_err o_out o_cbs o_unm o_outs =>
       let bd := if has_body then expand_body body else [] in
       let c := {| c_disable_auto := disable; c_save := save; c_cap := option_map N.to_nat cap;
